@@ -73,7 +73,8 @@ def run(rep, pdb, tier):
     n_ops = 0
     for fn in pdb.local_fns():
         tr = fn.get("impl_trait")
-        if fn["file"] != "src/banded.rs" or tr not in OP_OF_TRAIT:
+        from .common import involves_adt
+        if not (fn["file"] == "src/banded.rs" or involves_adt(fn, "banded::Banded")) or tr not in OP_OF_TRAIT:
             continue
         st = fn["impl_self"]
         args = fn.get("impl_trait_args", [])
@@ -224,6 +225,12 @@ def run(rep, pdb, tier):
         for a in ctx.assigns.get(mult[1], []) if mult[0] == "var" else []:
             if any(x is s.loops[1] for x in ancestors(a)):
                 mdef = ctx.term(a["r"])
+        if mdef is None and mult[0] == "var":
+            mb = ctx.binds.get(mult[1])          # `let factor = ..` inside the row loop instead of a re-used variable
+            if mb is not None and mb.kind == "let" and mb.init is not None and mb.node is not None and any(x is s.loops[1] for x in ancestors(mb.node)):
+                mdef = ctx.term(mb.init)
+        if mdef is None and mult[0] != "var":
+            mdef = mult                          # an immutable `let` was inlined: the stored value is the quotient itself
         piv = ("idx", AU, ("tup", k, num(0)))
         quot = ("op", "/", ("idx", AU, ("tup", i, num(0))), piv)
         # the multiplier is the quotient, taken as zero when the pivot is zero (a column of zeros: nothing to eliminate)
@@ -232,7 +239,14 @@ def run(rep, pdb, tier):
         okm = s.index == ("tup", k, lin_sub(lin_sub(i, k), num(1))) and (mdef == quot or guarded) and ri[1] == lin_add(k, num(1))
         rj = for_range(ctx, u.loops[2])
         j = rj[0]
-        oku = u.index == ("tup", i, lin_add(j, num(-1))) and u.value == ("op", "-", ("idx", AU, ("tup", i, j)), ("op", "*", mult, ("idx", AU, ("tup", k, j)))) and rj[1] == num(1) and rj[2] == MM
+        uv = u.value
+        same_mult = False
+        if uv[0] == "op" and uv[1] == "-" and uv[3][0] == "op" and uv[3][1] == "*":
+            um = uv[3][2]
+            # the same multiplier, whether the row update names the variable or (an immutable let inlined) repeats its value
+            same_mult = um == mult or (um[0] == "var" and ctx.def_term(um) is not None and ctx.def_term(um) in (mult, mdef)) or (mdef is not None and um == mdef)
+            uv = ("op", "-", uv[2], ("op", "*", mult, uv[3][3])) if same_mult else uv
+        oku = u.index == ("tup", i, lin_add(j, num(-1))) and uv == ("op", "-", ("idx", AU, ("tup", i, j)), ("op", "*", mult, ("idx", AU, ("tup", k, j)))) and rj[1] == num(1) and rj[2] == MM
         okm = okm and oku
         det = "multiplier=%s stored at al[(k,i-k-1)]; shifted row update=%s" % (show(mdef, ctx) if mdef else None, oku)
     rep.add("row-op-pair/decompose", "the multiplier au[(i,0)]/au[(k,0)] (pivot is the divisor) is stored at al[(k, i-k-1)] and used for the left-shifted row update over columns 1..mm; *d starts at one",
